@@ -15,7 +15,15 @@ for s in seeds:
     d = V / "seeded" / s
     r = subprocess.run(["git", "-C", "/repo", "apply", "--whitespace=nowarn", str(d / "patch.diff")], capture_output=True, text=True)
     if r.returncode != 0:
-        print(s, "APPLY FAILED", r.stderr[:200]); continue
+        r = subprocess.run(["git", "-C", "/repo", "apply", "-3", "--whitespace=nowarn", str(d / "patch.diff")], capture_output=True, text=True)
+        if r.returncode != 0 or "with conflicts" in r.stderr:
+            subprocess.run(["git", "-C", "/repo", "reset", "-q", "--hard", "HEAD"], check=True)
+            print(s, "APPLY FAILED", r.stderr[:200]); continue
+        subprocess.run(["git", "-C", "/repo", "reset", "-q"], check=True)
+        # keep the stored patch applicable to the current HEAD
+        eff = subprocess.run(["git", "-C", "/repo", "diff", "HEAD", "--", "xknx"], capture_output=True, text=True).stdout
+        (d / "patch.diff").write_text(eff)
+        print(s, "(patch rebased onto current HEAD)")
     try:
         def run(cid):
             env = dict(os.environ, VERIF_EVIDENCE_DIR=f"/tmp/seed_ev_{cid}")
